@@ -168,8 +168,9 @@ def Sniff.written : Sniff := { empty := false, gzip := false, hdf5 := true }
 
 /-- `parse_biom_table(handle)`: HDF5 first; a ValueError is swallowed and the JSON attempt on an
 h5py handle then ends in `json.loads(<File>)`, a TypeError. -/
-def parseBiomTable [Zero α] [DecidableEq α] (c : Utf8) (dc : DateC δ) (h : H5 α) : Except Err (Loaded α δ) :=
-  match fromH5 c dc h .samp with
+def parseBiomTable [Zero α] [DecidableEq α] (c : Utf8) (dc : DateC δ) (h : H5 α) (ax : Axis := .samp) :
+    Except Err (Loaded α δ) :=
+  match fromH5 c dc h ax with
   | .ok t => .ok t
   | .error .value => .error .type
   | .error e => .error e
@@ -333,6 +334,7 @@ def handle (req : Json) : R Json := do
   let run (h : H5 Rat) : Except Err (Loaded Rat String) :=
     match loader, ax with
     | .fromHdf5, a => fromH5 Utf8.ident DateC.ident h a
+    | .parseTable, a => parseBiomTable Utf8.ident DateC.ident h a      -- parse_table(handle, axis=a)
     | l, _ => load Utf8.ident DateC.ident sn l h
   let model : Except Err (Loaded Rat String) :=
     match toH5 Utf8.ident DateC.ident src genBy date now csr csc with
